@@ -582,6 +582,9 @@ func (l *lowerer) service(s *Service) *dt.Node {
 		var h []*dt.Node
 		if s.BasePath != "" {
 			h = append(h, dt.N("Path", dt.S(s.BasePath)))
+			for _, bp := range s.MoreBasePaths {
+				h = append(h, dt.N("Path", dt.S(bp)))
+			}
 		}
 		for _, er := range s.ErrorResp {
 			h = append(h, l.errorResponse(er))
